@@ -35,7 +35,8 @@ struct Arena {
         std::deque<Slot> slots; // slots of the current run (deque: pointers stay valid)
         void init(size_t bytes);
         // begin a run: releases everything from the previous run, wraps the ring if needed
-        void run_begin(size_t skip_pages = 0);
+        void run_begin(size_t skip_pages = 0, size_t sub = 0);
+        size_t sub_off = 0; // byte displacement of every buffer inside its pages (address twin only; costs up to 63 bytes of guard tightness)
         void run_end();
         // allocate len bytes; align_off only for PLACE_START (offset into first page, 0..63);
         // for PLACE_END `slack` bytes (0..63) can be left between data end and the guard (default 0).
